@@ -49,6 +49,10 @@ def main():
         env = {"PYTHONPATH": "%s:/tmp/xshim" % S, "PYTHONHASHSEED": "0"}
         rc, o = sh("/venv/bin/python -c 'import xeofs; print(xeofs.__file__)'", env=env)
         assert S in o, o
+        if skip_tests and os.path.exists(os.path.join(out, "meta.json")):
+            prev = json.load(open(os.path.join(out, "meta.json")))
+            if "tests_with_patch" in prev:
+                meta["tests_with_patch"] = prev["tests_with_patch"]
         if not skip_tests:
             t0 = time.time()
             # the baseline environment: no statsmodels shim, tests/models/cross cannot be collected (as in BASELINE.json)
@@ -69,7 +73,7 @@ def main():
         meta["needs_to_manifest"] = ""
         if os.path.exists(notes):
             meta["agent_notes"] = open(notes).read()[:6000]
-        valid = meta.get("demo", {}).get("rc_unpatched") == 0 and meta.get("demo", {}).get("rc_patched") != 0 and (skip_tests or (meta["tests_with_patch"]["failed"] == 0 and meta["tests_with_patch"]["passed"] >= 1781))
+        valid = meta.get("demo", {}).get("rc_unpatched") == 0 and meta.get("demo", {}).get("rc_patched") != 0 and ("tests_with_patch" in meta and meta["tests_with_patch"]["failed"] == 0 and meta["tests_with_patch"]["passed"] >= 1781)
         meta["valid_seed"] = bool(valid)
         os.makedirs(out, exist_ok=True)
         shutil.copy(patch, os.path.join(out, "patch.diff"))
